@@ -223,8 +223,13 @@ int s_advance_to_closing_tag(
             if (!aws_byte_cursor_find_exact(&parser->doc, &to_find_open, &open_find_result)) {
                 if (open_find_result.ptr < close_find_result.ptr) {
                     size_t skip_len = open_find_result.ptr - parser->doc.ptr;
+                    /* only a tag whose name ends here nests inside this node: "<ab>" does not open another "a" */
+                    uint8_t name_end = open_find_result.len > to_find_open.len ? open_find_result.ptr[to_find_open.len] : 0;
+                    bool same_name = name_end == '>' || name_end == '/' || aws_isspace(name_end);
                     aws_byte_cursor_advance(&parser->doc, skip_len + 1);
-                    depth_count++;
+                    if (same_name) {
+                        depth_count++;
+                    }
                     continue;
                 }
             }
